@@ -2,8 +2,8 @@
 from reg._common import COMMON_ASSUME
 
 ENTRY = {
-    'lean_files': ['Tables/C10.lean', 'Props/C10.lean', 'Tables/C10Triangle.lean', 'Props/C10Triangle.lean'],
-    'lemma_files': ['Lemmas/LocateTri.lean', 'Model/LocateTri.lean', 'Model/Triangle.lean', 'Model/TriDeriv.lean', 'Model/Helpers.lean', 'Lemmas/Locate.lean', 'Lemmas/Subdivide.lean', 'Lemmas/Bridge.lean', 'Model/Basic.lean', 'Model/Curve.lean', 'Model/Locate.lean'],
+    'lean_files': ['Tables/C10.lean', 'Props/C10.lean', 'Tables/C10Triangle.lean', 'Props/C10Triangle.lean', 'Props/C10Rounding.lean'],
+    'lemma_files': ['Lemmas/RoundingDeriv.lean', 'Lemmas/RoundingMore.lean', 'Lemmas/Rounding.lean', 'Lemmas/LocateTri.lean', 'Model/LocateTri.lean', 'Model/Triangle.lean', 'Model/TriDeriv.lean', 'Model/Helpers.lean', 'Lemmas/Locate.lean', 'Lemmas/Subdivide.lean', 'Lemmas/Bridge.lean', 'Model/Basic.lean', 'Model/Curve.lean', 'Model/Locate.lean'],
     'script': 'props/c10.py',
     'scripts': ['props/c10.py', 'props/c10t.py'],
     'rule': 'curves degree 1..8 in 2-D/3-D with strictly increasing x control values (hodograph in an open half-space: regular, injective), '
@@ -14,7 +14,7 @@ ENTRY = {
             'and random interior points, outside-box points; distinct by hash of exact inputs',
     'partial': ['curves: round trip accuracy after the Newton step is validated numerically (proved: the filter never loses an on-curve point in '
                 'exact arithmetic - filter_complete -, the pre-Newton estimate is within the spread cap, the Newton step fixes the true '
-                'parameter, results lie in [0,1], off-box => None); binary64 rounding inside the filter is outside the model (finding F-F)',
+                'parameter, results lie in [0,1], off-box => None); binary64 rounding inside the filter is outside the model (finding F-F); Props/C10Rounding: one curve Newton step in rounded arithmetic is within ((1+u)^(6n+8+dim)-1)(|s| + (numAbs + |num| denAbs/|den|)/m) of the exact step under an explicit margin m on the denominator |B'|^2 - the script's allowance 2^-44/reg + 2^-46 follows from it when the hodograph does not cancel',
                 'triangles (Props/C10Triangle, model Model/LocateTri with Python and Fortran variants): the convex-hull property of triangle '
                 'evaluation, the filter never loses a point of the surface (tri_filter_complete, via the C09 subdivision theorems), on-surface '
                 '=> never None and off-box => None in exact arithmetic, the candidate bookkeeping (centroid, signed width) encodes exactly the '
